@@ -3,12 +3,12 @@
 package run
 
 import (
-	"verifharness/vt"
 	"errors"
 	"fmt"
 	"math"
 	"sort"
 	"strings"
+	"verifharness/vt"
 
 	"github.com/prometheus/prometheus/model/labels"
 	"github.com/prometheus/prometheus/model/value"
